@@ -150,6 +150,25 @@ def m_uf(E, fr, args):
         E.store(out + i, 1, z3.Extract(8 * (n_out - i) - 1, 8 * (n_out - i - 1), r))
     return None
 
+def m_depth_limit(E, fr, args):
+    """verif_depth_limit(n): from here on, more than n additional call frames is a violation (recursion driven by input nesting)"""
+    n = cint(E, args[0], 'depth limit')
+    E.depth_limit = (len(E.frames) + n) if n else 0
+    return None
+def m_errno_location(E, fr, args):
+    if getattr(E, '_errno_obj', None) is None or not E._errno_obj.alive: E._errno_obj = E.alloc(4, 'heap', 'errno')
+    return E._errno_obj.base
+def m_strtod(E, fr, args):
+    """strtod on a text the caller has already scanned as a number: consumes the whole text, value irrelevant to the caller (0.0)"""
+    p = cint(E, args[0], 'strtod ptr'); n = 0
+    while True:
+        b = E.load(p + n, 1)
+        if isinstance(b, int) and b == 0: break
+        n += 1
+        if n > 4096: raise EngineError('strtod: unterminated text')
+    if args[1]: E.store(cint(E, args[1], 'endptr'), 8, p + n)
+    return 0.0
+
 def m_fail(E, fr, args):
     raise PathEnd('error', 'verif_abort')
 
@@ -474,7 +493,7 @@ def install(E):
     M['nondet_bytes'] = m_nondet_bytes
     M['verif_assume'] = m_assume; M['verif_assert'] = m_assert; M['verif_observe'] = m_observe
     M['verif_reach'] = m_reach; M['verif_note'] = m_note; M['verif_concretize'] = m_concretize
-    M['verif_uf'] = m_uf; M['verif_is_symbolic'] = m_is_symbolic; M['verif_abort'] = m_fail; M['verif_known'] = m_known
+    M['verif_depth_limit'] = m_depth_limit; M['__errno_location'] = m_errno_location; M['strtod'] = m_strtod; M['verif_uf'] = m_uf; M['verif_is_symbolic'] = m_is_symbolic; M['verif_abort'] = m_fail; M['verif_known'] = m_known
     E.kf_mode = {}; E.kf_seen = set()
     E.reach_count = {}
     for n in ('_Znwm', '_Znam', '_ZnwmRKSt9nothrow_t', '_ZnamRKSt9nothrow_t', 'malloc', '_ZnwmSt11align_val_t', '_ZnamSt11align_val_t'): M[n] = m_new
